@@ -1,6 +1,6 @@
-(* C19/Properties.v — the property theorems.  Repaired = /repo HEAD (the five C19 fixes are committed there; the full
-   theorems are about it); Defective = the code before those commits (kept for the _refuted witnesses, so that a
-   regression is recognised).  Specification-side definitions (item, enc, wf_pkt, wf_tail, frame4_ok, ...) live in
+(* C19/Properties.v — the property theorems.  Repaired = /repo HEAD (the five C19 fixes e92fcd5, de0488c, b498cfb,
+   c73561e, 35c2549 are committed there; the full theorems are about it and the correspondence check compares with it
+   only); Defective = the code before those commits, kept solely for the historical _refuted witnesses.  Specification-side definitions (item, enc, wf_pkt, wf_tail, frame4_ok, ...) live in
    Proofs.v.  A "well-formed" DHCPv4 message is wf_pkt hdr its tl with wf_tail tl: 240 header bytes, pads and complete
    options in any order, then EITHER the end of the packet (missing END) OR END + arbitrary trailer;
    C19_decodable_is_wf shows that this is every message the reference decoder can decode. *)
@@ -32,7 +32,7 @@ Example C19_ipv4_frame_nonvacuous :
 Proof. eexists. vm_compute. repeat split. Qed.
 Print Assumptions C19_ipv4_frame_nonvacuous.
 
-(* today's code sends a UDP checksum that computes to zero as 0x0000, i.e. "no checksum" (RFC 768) *)
+(* before c73561e the code sent a UDP checksum that computes to zero as 0x0000, i.e. "no checksum" (RFC 768) *)
 Theorem C19_udp4_checksum_nonzero_refuted :
   exists src dst sp dp payload f, bytes_ok payload /\
     build_ipv4_udp_frame Defective (Some src) (Some dst) sp dp payload = Ok (Some f) /\ firstn 2 (skipn 26 f) = [0; 0].
@@ -86,7 +86,7 @@ Example C19_opt82_nonvacuous :
 Proof. split; [reflexivity|]. split; [exact ex_two82_ok|]. eexists. vm_compute. split; reflexivity. Qed.
 Print Assumptions C19_opt82_nonvacuous.
 
-(* today's code: with two pre-existing option 82 the "replace" policy leaves one of the client's in place *)
+(* before e92fcd5: with two pre-existing option 82 the "replace" policy leaves one of the client's in place *)
 Theorem C19_opt82_replace_refuted :
   exists hdr its trail d out, length hdr = 240%nat /\ Forall item_ok its /\ (length d <= 255)%nat /\
     insert_option82 Defective (wf_pkt hdr its (255 :: trail)) (82 :: blen d :: d) Replace = Ok out /\
@@ -131,7 +131,7 @@ Example C19_rewrite_nonvacuous :
 Proof. split; [exact ex_badlen_ok|]. eexists. vm_compute. split; reflexivity. Qed.
 Print Assumptions C19_rewrite_nonvacuous.
 
-(* today's code: a target option of another length gets a second copy *)
+(* before de0488c: a target option of another length gets a second copy *)
 Theorem C19_rewrite_faithful_refuted :
   exists hdr its trail code val4 out, length hdr = 240%nat /\ Forall item_ok its /\ length val4 = 4%nat /\
     set_option4 Defective (wf_pkt hdr its (255 :: trail)) code val4 = Ok out /\
@@ -164,7 +164,7 @@ Example C19_proxy_nonvacuous :
 Proof. split; [exact ex_server_ok|]. eexists. vm_compute. split; reflexivity. Qed.
 Print Assumptions C19_proxy_nonvacuous.
 
-(* today's code: for the infinite lease T2 (option 59) comes out smaller than T1 (option 58) *)
+(* before b498cfb: for the infinite lease T2 (option 59) comes out smaller than T1 (option 58) *)
 Theorem C19_proxy_t2_refuted :
   exists hdr its trail sid lease out, length hdr = 240%nat /\ Forall item_ok its /\ lease < 4294967296 /\
     rewrite_for_proxy Defective (wf_pkt hdr its (255 :: trail)) sid lease = Ok out /\
@@ -210,7 +210,7 @@ Example C19_reply_nonvacuous :
 Proof. eexists. eexists. vm_compute. repeat split. Qed.
 Print Assumptions C19_reply_nonvacuous.
 
-(* today's code: a 256-byte value (64 DNS servers) is written with length byte 0; the decoder then reads the value
+(* before 35c2549: a 256-byte value (64 DNS servers) is written with length byte 0; the decoder then reads the value
    bytes as further options: the DNS value is lost and the message does not end in END *)
 Theorem C19_reply_decodes_refuted :
   exists xid hw mt opts p view, Forall opt_code_ok opts /\
@@ -257,7 +257,7 @@ Theorem C19_relay_reply_unwrap : forall inner hop link peer ifid, blen inner < 6
 Proof. exact relay_reply_unwrap. Qed.
 Print Assumptions C19_relay_reply_unwrap.
 
-(* today's code: RewriteV6Lifetimes with the infinite preferred lifetime writes T2 < T1 *)
+(* before b498cfb: RewriteV6Lifetimes with the infinite preferred lifetime writes T2 < T1 *)
 Theorem C19_v6_t2_refuted :
   exists pref, pref < 4294967296 /\ pref_t2 Defective pref < pref_t1 pref /\ pref_t1 pref <= pref_t2 Repaired pref.
 Proof. exists 4294967295. vm_compute. repeat split; discriminate. Qed.
@@ -506,3 +506,20 @@ Example C19_ipv6_frame_nonvacuous :
             length f = 52%nat /\ verifies (pseudo6 f ++ skipn 40 f) = true.
 Proof. eexists. vm_compute. repeat split. Qed.
 Print Assumptions C19_ipv6_frame_nonvacuous.
+
+(* ---------------------------------------------------------------- value semantics of the DHCPv6 proxy sequence *)
+(* learn the server DUID from the server's message, rewrite that message for the client, later put the learnt DUID
+   into the client's REQUEST: with value semantics (the Go getters return copies — checked on every case by the
+   harness observables al/im/gal/nal/rawmod) the REQUEST carries the SERVER's DUID and the client saw the proxy's *)
+Theorem C19_v6_proxy_sequence : forall h a sd b pd h' a' x b',
+  length h = 4%nat -> length h' = 4%nat -> Forall opt6_ok a -> Forall (fun o => fst o <> 2) a ->
+  Forall opt6_ok a' -> Forall (fun o => fst o <> 2) a' ->
+  blen sd < 65536 -> blen pd < 65536 -> blen x < 65536 ->
+  let adv := h ++ enc6 (a ++ (2, sd) :: b) in
+  let req := h' ++ enc6 (a' ++ (2, x) :: b') in
+  get_server_duid adv = Some sd /\
+  get_server_duid (replace_server_duid adv pd) = Some pd /\
+  replace_server_duid req sd = h' ++ enc6 (a' ++ (2, sd) :: b') /\
+  get_server_duid (replace_server_duid req sd) = Some sd.
+Proof. exact v6_proxy_sequence. Qed.
+Print Assumptions C19_v6_proxy_sequence.
